@@ -143,6 +143,10 @@ def r6_old_is_installed(chk, fx):
     keeps its accepting term: the installed policy accepts routes outside the evaluated set.  Same extraction as C01/R1."""
     from . import c01
     c01.r1_compare(_Rename(chk, "C01/R1", "C02/R6"), fx)
+    # .. and the installed set itself must be what is installed: the reader keeps every route-filter of a term (none dropped, merged
+    # or mis-parsed) and every statement the agent wrote — a range the reader loses is a range the next update never deletes
+    c01.r4_installed_reader(_Rename(chk, "C01/R4", "C02/R6:installed"), fx)
+    c01.r5_installed_statement(_Rename(chk, "C01/R5", "C02/R6:statement"), fx)
 
 
 def _name_chain(t):
